@@ -309,7 +309,10 @@ Theorem c10_facts :
   sites_of "cutting_decomposition:cut_gates" = 1 /\
   (* repaired behaviour F4: four validations + the idle-observable refusal; the None group is popped *)
   sites_of "cutting_decomposition:partition_problem" = 5 /\
-  c10_idle_group_removed = true.
+  c10_idle_group_removed = true /\
+  (* repaired behaviour F16: the renamed placeholder drops its cached definition, so the halves carry the new label
+     whatever was read before the call (the model has no call history) *)
+  c10_relabel_resets_definition = true.
 Proof. repeat split; reflexivity. Qed.
 
 Print Assumptions c10_split_barriers.
